@@ -373,7 +373,7 @@ Definition run_task (c : conn) (k : task) : conn :=
   match k with
   | TClientAuth m =>
       (* the start task asks the application for the credential; a gated application suspends it there *)
-      if gated c then set_waiting true c
+      if gated c && negb (m =? 0) then set_waiting true c      (* 'none' asks the application nothing *)
       else set_req_issued true (send_packet c 50 0)     (* send_userauth_request hands the request to send_packet *)
   | TChangePw => try_next_auth (set_app_events (app_events c + 1) c) true    (* password_change_requested -> NotImplemented *)
   | TClientKbdResp cancel =>                                 (* kbdint_challenge_received *)
